@@ -567,6 +567,14 @@ static Family failover_family(const std::string &tier)
     f.cfgs.push_back(d);
   }
   {
+    // ARES_FLAG_PRIMARY: only the first configured server is used, also after the same list is applied again while that
+    // server has failures
+    Cfg c          = cfg("srv2-primary-norotate-chance0", 2, 2, ARES_FLAG_PRIMARY);
+    c.retry_chance = 0;
+    c.auto_io      = true;
+    f.cfgs.push_back(c);
+  }
+  {
     // TCP with the deferred-write notification: the frames are flushed by ares_process_pending_write(); a send failure
     // there is a failure of that server like any other
     Cfg c              = cfg("srv2-usevc-stayopen-pendingwrite-norotate-chance0", 2, 2, ARES_FLAG_USEVC | ARES_FLAG_STAYOPEN);
@@ -584,7 +592,7 @@ static Family failover_family(const std::string &tier)
   f.req_menu   = { 0, 1, 2 };
   f.replies    = { RK_DATA, RK_SERVFAIL, RK_TC };
   f.faults     = { FS_SEND_REFUSED, FS_SEND_ENOBUFS, FS_CONNECT, FS_RECV_RESET };
-  f.setservers = { 2, 3 };
+  f.setservers = { 2, 3, 0 };
   f.advances   = { 6000 };
   f.evmask     = EVBIT(EV_REQ) | EVBIT(EV_REPLY) | EVBIT(EV_TIMER) | EVBIT(EV_FAULT) | EVBIT(EV_SETSERVERS) | EVBIT(EV_ADVANCE) | EVBIT(EV_IO) | EVBIT(EV_TCP) | EVBIT(EV_WRITECB);
   f.policy_mask = (1u << ARES_VERIF_RAND_ROTATE) | (1u << ARES_VERIF_RAND_PROBE);
